@@ -31,6 +31,10 @@ from insights.cleaner import Cleaner            # noqa: E402
 
 SAFE = "gijnquvz"                 # letters that occur in no substitute vocabulary (hex, host<N>, example.com, keyword<N>)
 DELIMS = [" ", " ", " ", "\t", ",", ";", ":", "/", "(", ")", "[", "]", "=", '"', "'", "<", ">", "@", "#", "|", "!", "?", "{", "}"]
+# characters str.splitlines() treats as line boundaries but a text-mode file iterator / readlines() does not: inside a line
+CTRL_DELIMS = ["\x0b", "\x0c", "\x1c", "\x1d", "\x1e", "\x85", "\u2028", "\u2029"]
+# addresses textually next to the one exempt address (127.0.0.1): none of them is exempt
+NEAR_LOOPBACK = ["27.0.0.1", "7.0.0.1", "127.0.0.2", "127.0.0.11", "127.0.0.0", "127.0.1.1", "27.0.0.0", "1.0.0.1"]
 FILL = ["gizmo", "zur", "qing", "vunj", "the", "of", "link", "up", "ERROR", "WARN", "42", "7", "x", "inet", "ether", "--", "->"]
 ADORN_PRE = ["http://", "https://", "tcp://"]
 ADORN_POST = ["/24", "/8", ":8080", ":22", "/index.html", "/32"]
@@ -86,6 +90,15 @@ def mac(rng):
         return m.upper() if rng.random() < 0.3 else m
 
 
+def mac_substitute(m):
+    """Reference of the documented substitute of a MAC address: every octet becomes the first two hex digits of the
+    SHA-1 of its lower-case text; separator and letter case are kept."""
+    import hashlib
+    sep = "-" if "-" in m else ":"
+    out = sep.join(hashlib.sha1(h.lower().encode()).hexdigest()[:2] for h in m.split(sep))
+    return out.upper() if m.isupper() else out
+
+
 def clean_vocabulary(case, pool):
     """No replaceable token may occur inside any other planted text (token or filler): its replacement would alter
     the other one and the oracles could not tell a defect from an accident of the vocabulary.  Exempt are the two
@@ -134,7 +147,14 @@ def _gen_case(rp, rf, rk, tier, flavour):
         b = name(rp, 1, 3).replace(".", "") + a          # "db1.corp" and "mydb1.corp": one is a suffix of the other
         hosts.append(b)
         suffix_pair = [a, b]
+    if has_dom and rp.random() < 0.12:
+        # a name that belongs to the domain only because the recogniser interpolates the domain unescaped ('.' = any
+        # character): "db1.corp-test" next to the system's "web1.corp.test".  The recogniser treats it as a host of the
+        # domain, so it is an original like any other.
+        hosts.append(name(rp) + "." + dom.replace(".", rp.choice(["-", "_", "x"]), 1))
     ips = [ipv4(rp) for _ in range(rp.randint(0, 4))]
+    if rp.random() < 0.06:
+        ips += rp.sample(NEAR_LOOPBACK, rp.randint(1, 2))
     if rp.random() < 0.08:
         # a host with many addresses: the substitute counter crosses 10.230.230.9 -> .10 (and, rarely, a whole octet)
         ips = [ipv4(rp) for _ in range(rp.choice([11, 12, 15, 25, 40]))]
@@ -174,6 +194,7 @@ def _gen_case(rp, rf, rk, tier, flavour):
     k6 = flavour == "C08" and rk.random() < 0.03
     specs = []
     nm = 0
+    delims = DELIMS + (CTRL_DELIMS if rk.random() < 0.1 else [])
     for s in range(rp.randint(1, 6 if tier == "thorough" else 4)):
         lines = []
         for _ in range(rp.randint(0, 8 if tier == "thorough" else 6)):
@@ -188,7 +209,7 @@ def _gen_case(rp, rf, rk, tier, flavour):
                 continue
             for i in range(rp.randint(0, 6)):
                 if i:
-                    segs.append(["d", rp.choice(DELIMS)])
+                    segs.append(["d", rp.choice(delims)])
                 r = rp.random()
                 if r < 0.55 and pool:
                     k, t = rp.choice(pool)
@@ -231,9 +252,9 @@ def _gen_case(rp, rf, rk, tier, flavour):
                     if segs[j][0] == "mac" and segs[j + 1][0] == "d" and segs[j + 1][1] in (":",):
                         segs[j + 1] = ["d", " "]
             if not marker_mode and rp.random() < 0.15 and segs:
-                segs.insert(0, ["d", rp.choice(DELIMS)])
+                segs.insert(0, ["d", rp.choice(delims)])
             if rp.random() < 0.15 and segs:
-                segs.append(["d", rp.choice(DELIMS)])
+                segs.append(["d", rp.choice(delims)])
             if not k6:
                 # outside the K6 regime no MAC touches ':' (or '-'): the recogniser's look-arounds would skip it
                 for j, sg in enumerate(segs):
@@ -250,7 +271,7 @@ def _gen_case(rp, rf, rk, tier, flavour):
                 "allowlist": None, "width": False, "via": "content"}
         if len(lines) == 1 and rk.random() < 0.3:
             spec["via"] = "single"            # clean_content(<one string>) instead of a list of lines
-        elif flavour == "C08" and rk.random() < 0.08:
+        elif flavour in ("C08", "C10") and rk.random() < 0.08:
             spec["via"] = "file"              # Cleaner.clean_file on a file in the scratch area
         if rk.random() < 0.12:
             spec["allowlist"] = dict((w, 10000) for w in rk.sample(["ERROR", "link", "inet", "gizmo", "~m"], rk.randint(1, 2)))
@@ -269,6 +290,19 @@ def _gen_case(rp, rf, rk, tier, flavour):
                   ["d", " "], ["ip", victim]] for k in range(2)]
         specs.append({"lines": extra, "no_obfuscate": [], "no_redact": False, "allowlist": None, "width": False})
         case["collision_victim"] = victim
+    elif flavour == "C09" and cfg["obfuscate_mac"] and rk.random() < 0.04:
+        # an original MAC that equals the substitute of another original (A = f(B)), met in every order
+        b = mac(rp)
+        a = mac_substitute(b)
+        if a.lower().replace("-", ":") not in ("00:00:00:00:00:00", "ff:ff:ff:ff:ff:ff") and a != b:
+            order = rk.choice(["aba", "abab", "ab", "aab", "ba", "bab", "bba"])
+            extra = [[["mk", "~c%d~" % k], ["d", " "], ["mac", a if o == "a" else b], ["d", " "], ["f", "x"]] for k, o in enumerate(order)]
+            cut = rk.randrange(len(extra) + 1)
+            for part in (extra[:cut], extra[cut:]):
+                if part:
+                    specs.append({"lines": part, "no_obfuscate": [], "no_redact": False, "allowlist": None, "width": False})
+            case["regime"] = "mac-chain"
+            case["mac_chain"] = {"a": a, "b": b, "order": order}
     return case
 
 
@@ -496,7 +530,7 @@ def expected_outputs(case, final):
 def oracle_c09(case, r, stats, facts_dir):
     viols = []
     regime = case["regime"]
-    sfx = ":collision-regime" if regime == "collision" else ""
+    sfx = ":collision-regime" if regime == "collision" else (":mac-chain-regime" if regime == "mac-chain" else "")
     final = r.final
     for k in ("ip", "host"):
         subs = [o for _, o in final[k]]
@@ -802,7 +836,14 @@ class C10(CleanerCheck):
         if case.get("w") == "w2e":
             return self.run_e2e(case)
         stats = {"faults_fired": {}, "probes": {}}
-        r = run_history(case)
+        d = None
+        if any(sp.get("via") == "file" for sp in case["specs"]):
+            d = tempfile.mkdtemp(prefix="w3-", dir=scratch_base())
+        try:
+            r = run_history(case, facts_dir=d)
+        finally:
+            if d:
+                shutil.rmtree(d, ignore_errors=True)
         viols = oracle_c10(case, r, stats)
         res = self.base_result(case, r, viols, stats)
         res["sig"] = digest([r.outputs, r.final, r.raised])
